@@ -121,6 +121,8 @@ def random_history(rng, kind, nvals, nops, zero_tok=0, two=True, maxlen=40, bad=
                 continue
             if w == "pop_empty" and n > 0:
                 continue
+            if w == "refuse_set" and n == 0:
+                continue
             L.append("bad %d %s" % (o, w))
             continue
         if r < 0.25 and n < maxlen:
